@@ -1007,8 +1007,9 @@ func (p *hdrPkg) critLoop(s *ast.LabeledStmt) (*hdrDecStep, error) {
 // accessors returns getter name -> field read in its return statements, and setter name ->
 // fields assigned.
 func (p *hdrPkg) accessors() (getters [][2]string, setters []struct {
-	name   string
-	fields []string
+	name    string
+	fields  []string
+	deletes []string
 }, err error) {
 	for _, name := range p.order {
 		fn := p.methods[name]
@@ -1036,10 +1037,55 @@ func (p *hdrPkg) accessors() (getters [][2]string, setters []struct {
 				return nil, nil, hdrErr(p, fn, "setter %s assigns no header field", name)
 			}
 			sort.Strings(fields)
+			// delete(h.Raw, jwa.K): the decoded member of that name is dropped by the setter.
+			// Only top-level statements of this exact shape count; any other use of h.Raw in a
+			// setter is an unclassified shape.
+			var deletes []string
+			var derr error
+			for _, st := range fn.Body.List {
+				es, ok := st.(*ast.ExprStmt)
+				if !ok {
+					continue
+				}
+				c, ok := es.X.(*ast.CallExpr)
+				if !ok || !isIdent(c.Fun, "delete") {
+					continue
+				}
+				if len(c.Args) != 2 {
+					derr = hdrErr(p, c, "delete call in setter %s", name)
+					break
+				}
+				if f, ok := fieldOf(c.Args[0]); !ok || f != "Raw" {
+					derr = hdrErr(p, c, "setter %s deletes from something that is not h.Raw", name)
+					break
+				}
+				k, e := hdrKeyExpr(p, c.Args[1])
+				if e != nil {
+					derr = e
+					break
+				}
+				deletes = append(deletes, k)
+			}
+			if derr != nil {
+				return nil, nil, derr
+			}
+			rawUses := 0
+			ast.Inspect(fn.Body, func(n ast.Node) bool {
+				if e, ok := n.(ast.Expr); ok {
+					if f, ok := fieldOf(e); ok && f == "Raw" {
+						rawUses++
+					}
+				}
+				return true
+			})
+			if rawUses != len(deletes) {
+				return nil, nil, hdrErr(p, fn, "setter %s uses h.Raw other than in delete(h.Raw, <name>) statements", name)
+			}
 			setters = append(setters, struct {
-				name   string
-				fields []string
-			}{name, fields})
+				name    string
+				fields  []string
+				deletes []string
+			}{name, fields, deletes})
 			continue
 		}
 		seen := map[string]bool{}
@@ -1143,6 +1189,15 @@ func genHeaderTables() ([]byte, error) {
 				fs = append(fs, leanString(f))
 			}
 			fmt.Fprintf(&b, "  (%s, [%s])%s\n", leanString(s.name), strings.Join(fs, ", "), sep)
+		}
+		b.WriteString("]\n")
+		b.WriteString("def setterDeletes : List (String × List String) := [\n")
+		for i, s := range setters {
+			sep := ","
+			if i == len(setters)-1 {
+				sep = ""
+			}
+			fmt.Fprintf(&b, "  (%s, [%s])%s\n", leanString(s.name), strings.Join(s.deletes, ", "), sep)
 		}
 		b.WriteString("]\n")
 		fmt.Fprintf(&b, "end %s\n\n", pk.dir)
